@@ -89,13 +89,13 @@ func buildMaterial(r *run.Rng, idx int, shape string, T0 uint32, selfIdx int) (m
 
 func buildMaterial1(r *run.Rng, idx int, shape string, T0 uint32, selfIdx int) (*Material, error) {
 	if shape == "" {
-		shape = []string{"random", "random", "deepchain", "forks", "mine", "bgsign", "lateconfirms"}[r.Intn(7)]
+		shape = []string{"random", "random", "deepchain", "forks", "mine", "bgsign", "lateconfirms", "minerace"}[r.Intn(8)]
 	}
 	nDep := r.Range(3, 5)
 	// lateconfirms: a chain whose deepest pre-inserted block becomes stable first, so that its ancestors are stable
 	// with few confirms; then single-signature packets for those ancestors arrive back to back (each one a
 	// read-modify-write of the stored block through the write-behind queue)
-	chainLike := shape == "bgsign" || shape == "lateconfirms"
+	chainLike := shape == "bgsign" || shape == "lateconfirms" || shape == "minerace"
 	if chainLike {
 		nDep = r.Range(4, 5) // with 3 deputies miner + own signature already make a block stable
 	}
@@ -178,7 +178,7 @@ func buildMaterial1(r *run.Rng, idx int, shape string, T0 uint32, selfIdx int) (
 		}
 		var bt uint32
 		inTurn := false
-		if r.Chance(2, 3) || shape == "mine" {
+		if r.Chance(2, 3) || shape == "mine" || shape == "minerace" {
 			bt, inTurn = findInTurnTime(r, B, p.b, lo, hi, self, T0)
 		}
 		if !inTurn {
@@ -241,6 +241,9 @@ func buildMaterial1(r *run.Rng, idx int, shape string, T0 uint32, selfIdx int) (
 	npre := r.Intn(3)
 	if chainLike {
 		npre = 3
+	}
+	if shape == "minerace" {
+		npre = 1
 	}
 	for i := 0; i < len(mat.Tree) && len(mat.Pre) < npre; i++ {
 		if p := mat.Tree[i].Parent; p == -1 || inPre[p] {
@@ -373,6 +376,27 @@ func buildMaterial1(r *run.Rng, idx int, shape string, T0 uint32, selfIdx int) (
 		}
 		reqs = nil
 	}
+	if shape == "minerace" {
+		// client 0 inserts the chain block by block, each insertion holding the chain lock for a few milliseconds (yield
+		// site); client 1 (and 2) ask the node to mine in between: whatever a mining request read before it got the lock
+		// is stale by then. Every block of the chain leaves the node in turn, so mining can succeed on each of them
+		nClients = r.Range(2, 3)
+		mat.Clients = make([][]Req, nClients)
+		left := budget
+		for i := range mat.Tree {
+			if inPre[i] || left <= 3 {
+				continue
+			}
+			mat.Clients[0] = append(mat.Clients[0], Req{Kind: "block", Block: i})
+			left--
+		}
+		for k := 0; k < 3 && left > 0; k++ {
+			cl := 1 + k%(nClients-1)
+			mat.Clients[cl] = append(mat.Clients[cl], Req{Kind: "mine", PreDelay: r.Range(300, 3000)})
+			left--
+		}
+		reqs = nil
+	}
 	if shape == "bgsign" && len(mat.Pre) > 0 {
 		// client 0 starts with the packet that makes the deepest pre-inserted block stable: the
 		// stable block jumps over ancestors that lack confirms and the background signer starts
@@ -417,6 +441,15 @@ func buildMaterial1(r *run.Rng, idx int, shape string, T0 uint32, selfIdx int) (
 		// widen the window in which the background signer overlaps the foreground
 		mat.Yield[siteBatch] = r.Range(500, 3000)
 		mat.Yield[siteSig] = r.Range(500, 3000)
+	}
+	if shape == "minerace" {
+		mat.Yield[siteLockB] = r.Range(2000, 5000)
+		mat.Yield[siteLockC] = 0
+	}
+	if shape == "mine" {
+		// requests holding the chain lock for a while: whatever a request read before it got the lock is stale by then
+		mat.Yield[siteLockB] = r.Range(1000, 4000)
+		mat.Yield[siteLockC] = r.Range(500, 2000)
 	}
 	if shape == "lateconfirms" {
 		// keep writes pending in the write-behind queue for a while
